@@ -30,6 +30,18 @@ CHECKS = {
              '(the statement itself is a differential); ill-typed programs are compared as "both raise". The inference sample is set to 2 rows for engine traces.',
         technique='TLA+ engine model checked with TLC + TLC trace validation of probe-recorded executions + differential replay of program menus',
         design='6/C01', specs=['Engine.tla', 'EngineTrace.tla']),
+    'C04': dict(
+        level='model_checking',
+        text='Engine.tla contains a raising step kind (package phase / first row / end of stream x generic, CastError, UniqueKeyError) and '
+             'the driver\'s exception funnel modelled branch by branch; TLC checks FailNeverSucceeds, NoCommitAfterFailure, FailureIsReported '
+             'for all programs of length <=3 over 8 kinds (and shows the historical log-only CastError branch violates them). Fault '
+             'enumeration on the real code: probe traces of ~700 (quick) fault-carrying abstract programs validated by TLC (EngineTrace clause C04), '
+             'a raising step at every position x phase x class in four pipelines that together contain every built-in processor, and 18 '
+             'faults provoked inside real processors; each run is judged by TLC against FaultRun.tla (ProcessorError, cause = original '
+             'exception, no dump descriptor / checkpoint / stream file after the failure).',
+        note='Trusted: TLC, probes, the injected Faulty step, file-existence as the meaning of "committed". parallelize upstream failures are covered under C18.',
+        technique='TLA+ engine model with fault actions checked by TLC + fault enumeration on the real code judged by TLC trace specs',
+        design='6/C04', specs=['Engine.tla', 'EngineTrace.tla', 'FaultRun.tla']),
 }
 
 NOT_YET = 'check not built yet (build in progress, see DESIGN.md section 10)'
